@@ -462,6 +462,9 @@ class Conn:
         self.out = []  # raw strings passed to ws_send
         self.closed = None
         self.in_recv = False
+        self.n_fed = 0     # messages queued by the harness
+        self.n_taken = 0   # messages handed to the handler
+        self.n_done = 0    # messages the handler has finished with (it asked for the next one)
         self.log = SpyLog()
         self.disconnected = False
         self.task = asyncio.get_running_loop().create_task(
@@ -480,6 +483,7 @@ class Conn:
 
     async def _recv(self):
         self.in_recv = True
+        self.n_done = self.n_taken
         try:
             while not self.inbox:
                 self.wake.clear()
@@ -490,6 +494,7 @@ class Conn:
                 await asyncio.sleep(0)
         finally:
             self.in_recv = False
+        self.n_taken += 1
         if m is None:
             self.disconnected = True
             raise falcon.WebSocketDisconnected()
@@ -504,6 +509,7 @@ class Conn:
         if msg is not None and not isinstance(msg, str):
             msg = json.dumps(msg, ensure_ascii=False)
         self.inbox.append((msg, turns))
+        self.n_fed += 1
         self.wake.set()
 
     async def send(self, msg, settle_after=True):
@@ -524,7 +530,8 @@ class Conn:
         return [json.loads(m) for m in self.out[start:]]
 
     def idle(self):
-        return self.task.done() or (self.in_recv and not self.inbox)
+        """every fed message has been completely handled"""
+        return self.task.done() or (self.in_recv and not self.inbox and self.n_done == self.n_fed)
 
 
 # ------------------------------------------------------------------ settle
